@@ -150,7 +150,7 @@ def edge_labels(e):
     return out
 
 
-def render_xml(m, rng=None, gui=True, cdata=False):
+def render_xml(m, rng=None, gui=True, cdata=False, empty_elems=False):
     """rng (optional) shuffles label order inside transitions and adds GUI noise; cdata: some text blocks are written
     as (or partly as) CDATA sections instead of with entity escapes - the same character data for an XML parser."""
     from .xmlgen import esc as plain_esc
@@ -174,6 +174,11 @@ def render_xml(m, rng=None, gui=True, cdata=False):
             o.append("<parameter>%s</parameter>\n" % esc(", ".join(param_text(p) for p in t["params"])))
         o.append("<declaration>%s</declaration>\n" % esc(decls_text(t["decls"])))
         for l in t["locations"]:
+            if empty_elems and rng is not None and not l.get("name") and l.get("inv") is None and l.get("rate") is None \
+                    and not l.get("flag") and not l.get("both_flags") and rng.random() < 0.7:
+                # a location without children written in the empty-element syntax
+                o.append('<location id="%s" x="1" y="2"/>\n' % l["id"])
+                continue
             o.append('<location id="%s" x="%d" y="%d">' % (l["id"], 10, 20) if gui else '<location id="%s">' % l["id"])
             if l.get("name"):
                 o.append("<name>%s</name>" % l["name"])
@@ -185,6 +190,8 @@ def render_xml(m, rng=None, gui=True, cdata=False):
             if rng is not None and len(labs) == 2 and rng.random() < 0.5:
                 labs.reverse()
             for k, txt in labs:
+                if empty_elems and rng is not None and rng.random() < 0.3:
+                    o.append('<label kind="%s" x="0" y="0"/>' % rng.choice(["comments", "invariant", "exponentialrate"]))
                 o.append('<label kind="%s">%s</label>' % (k, esc(txt)))
             if l.get("both_flags"):
                 o.append("<urgent/><committed/>")
@@ -207,6 +214,8 @@ def render_xml(m, rng=None, gui=True, cdata=False):
                 rng.shuffle(rest)
                 labs = [x for x in labs if x[0] == "select"] + rest
             for k, txt in labs:
+                if empty_elems and rng is not None and rng.random() < 0.25:
+                    o.append('<label kind="%s" x="0" y="0"/>' % rng.choice(["comments", "guard", "assignment", "synchronisation", "select"]))
                 o.append('<label kind="%s"%s>%s</label>' % (k, ' x="3" y="4"' if gui else "", esc(txt)))
             if rng is not None and rng.random() < 0.3:
                 o.append('<nail x="1" y="1"/>')
@@ -395,15 +404,25 @@ def expected(m):
             bparams = [(p["name"], None) for p in base["params"]]
             bmapping = {}
             root = base["name"]
+            bplist, bmidx, bunbound = [p["name"] for p in base["params"]], {}, len(base["params"])
         else:
             b = imap[i["templ"]]
             bparams = b["unbound_params"]
             bmapping = dict(b["mapping"])
             root = b["root"]
+            bplist, bmidx, bunbound = b["plist"], b["mapping_idx"], b["unbound"]
         mapping = dict(bmapping)
         for (pn, _), a in zip(bparams, i["args"]):
             mapping[pn] = G.dump(a, ienv)
+        # by position: the parameter list of an instance is its own formals followed by the list of what it instantiates
+        # (two parameters may carry the same name); arguments bind the first (unbound) parameters of the base
+        no = len(i["params"])
+        plist = [p["name"] for p in i["params"]] + list(bplist)
+        mapping_idx = {no + k: v for k, v in bmidx.items()}
+        for j, a in enumerate(i["args"][:bunbound]):
+            mapping_idx[no + j] = G.dump(a, ienv)
         rec = {"name": i["name"], "root": root, "unbound_params": [(p["name"], None) for p in i["params"]] + [],
+               "plist": plist, "mapping_idx": mapping_idx,
                "mapping": mapping, "unbound": len(i["params"]), "arguments": len(i["args"]),
                "own_params": [{"name": p["name"], "type": param_dump(p, genv)} for p in i["params"]]}
         # parameters not bound by this instantiation stay free only if the base had more parameters than arguments
@@ -415,7 +434,7 @@ def expected(m):
             if n in imap:
                 r = imap[n]
                 exp["processes"].append({"name": n, "templ": r["root"], "mapping": r["mapping"], "unbound": r["unbound"],
-                                         "priority": gi})
+                                         "plist": r["plist"], "mapping_idx": r["mapping_idx"], "priority": gi})
             else:
                 exp["processes"].append({"name": n, "templ": n, "mapping": {}, "unbound": len(tmap[n]["params"]),
                                          "priority": gi})
@@ -561,6 +580,18 @@ def _cmp_inst(d, cls, w, g, analysed):
         d(cls + ":template", "%s %s instantiates %s, expected %s" % (cls, w["name"], g["templ"], w.get("root", w.get("templ"))))
     if g["unbound"] != w["unbound"]:
         d(cls + ":unbound", "%s %s: %d unbound parameters, expected %d" % (cls, w["name"], g["unbound"], w["unbound"]))
+    if "mapping_idx" in w:
+        want = {"%s|%d" % (w["plist"][k], k): v for k, v in w["mapping_idx"].items()}
+        if set(g["mapping"]) != set(want):
+            d(cls + ":mapping-keys", "%s %s maps %s, expected %s" % (cls, w["name"], sorted(g["mapping"]), sorted(want)))
+        else:
+            for k, v in want.items():
+                if g["mapping"][k] != v:
+                    d(cls + ":argument", "%s %s: parameter %s bound to %s, expected %s" % (cls, w["name"], k, g["mapping"][k], v))
+        gp = [p["name"] for p in g.get("params", [])]
+        if gp and gp != w["plist"]:
+            d(cls + ":parameter-list", "%s %s has parameters %s, expected %s" % (cls, w["name"], gp, w["plist"]))
+        return
     gm = {k.split("|")[0]: v for k, v in g["mapping"].items()}
     if set(gm) != set(w["mapping"]):
         d(cls + ":mapping-keys", "%s %s maps %s, expected %s" % (cls, w["name"], sorted(gm), sorted(w["mapping"])))
@@ -782,8 +813,15 @@ class ModelGen:
                 if r.random() < 0.3:
                     for si in range(r.randint(1, 2)):
                         sn = "s%d" % si
+                        if rich_edges and r.random() < 0.2:
+                            # a binder that shadows a visible integer (global, template local or parameter): the library
+                            # warns and the binder still belongs to the edge
+                            cand = [n for n in ints if n not in [x for x, _ in e["select"]] and n not in gconsts]
+                            if cand:
+                                sn = r.choice(cand)
                         e["select"].append((sn, ("int", self.lit(0, 0), self.lit(1, 3))))
-                        eints.append(sn)
+                        if sn not in eints:
+                            eints.append(sn)
                 if r.random() < 0.55:
                     e["guard"] = self.guard(eints, bools, clocks)
                 if tchans and r.random() < 0.4:
@@ -799,7 +837,7 @@ class ModelGen:
                     if prefix and "broadcast" in prefix and e["sync"][1] == "?" and e["guard"] is not None:
                         e["guard"] = self.int_pred(eints, bools)
                 if r.random() < 0.6:
-                    e["assign"] = self.updates(wints, eints, bools, clocks)
+                    e["assign"] = self.updates([w for w in wints if w not in [x for x, _ in e["select"]]], eints, bools, clocks)
                     if has_inc and r.random() < 0.15:
                         e["assign"].append(("call", "inc", []))
                 if rich_edges and r.random() < 0.15:
@@ -825,6 +863,19 @@ class ModelGen:
             # the XTA renderer can chain them
             if r.random() < 0.5:
                 t["edges"].sort(key=lambda e: locids.index(e["src"]) if e["src"] in locids else 999)
+            if rich_edges and r.random() < 0.25:
+                # per-template id numbering: the same id values are used again in every template of the model
+                remap = {}
+                for k2, l in enumerate(t["locations"]):
+                    remap[l["id"]] = "id%d" % k2
+                for k2, b in enumerate(t["branchpoints"]):
+                    remap[b] = "id%d" % (len(t["locations"]) + k2)
+                for l in t["locations"]:
+                    l["id"] = remap[l["id"]]
+                t["branchpoints"] = [remap[b] for b in t["branchpoints"]]
+                t["init"] = remap[t["init"]]
+                for e in t["edges"]:
+                    e["src"], e["dst"] = remap[e["src"]], remap[e["dst"]]
             m["templates"].append(t)
         # ---- a dynamic template: declared in the globals, defined by a <template> of that name, never instantiated
         if dynamic and r.random() < 0.25:
@@ -876,8 +927,10 @@ class ModelGen:
                 if partial and r.random() < 0.35 and t["params"][0]["kind"] == "cint":
                     # partial instantiation: first parameter stays free, the rest is bound; then bind the first one
                     qn = "Q%s_%d" % (t["name"], k)
-                    qp = {"name": "z", "type": ("const", ("int",)), "ref": False, "kind": "cint"}
-                    m["insts"].append({"name": qn, "params": [qp], "templ": t["name"], "args": [("id", "z")] + args[1:]})
+                    # the formal of the partial instantiation may carry the name of the parameter it is forwarded to
+                    zn = t["params"][0]["name"] if rich_edges and r.random() < 0.4 else "z"
+                    qp = {"name": zn, "type": ("const", ("int",)), "ref": False, "kind": "cint"}
+                    m["insts"].append({"name": qn, "params": [qp], "templ": t["name"], "args": [("id", zn)] + args[1:]})
                     nm = "R%s_%d" % (t["name"], k)
                     m["insts"].append({"name": nm, "params": [], "templ": qn, "args": [self.lit(0, 9)]})
                     procs.append(nm)
